@@ -22,7 +22,7 @@ type c11Case struct {
 	Name  string   `json:"name"`
 	Shape string   `json:"shape"` // seq | par | behind | never | twin | shared | merge
 	Kind  string   `json:"kind"`  // signal | message | messageop
-	Hist  []string `json:"hist"`  // "e:<ref>" deliver event, "a:<task>" answer task (skipped if not pending)
+	Hist  []string `json:"hist"`  // "e:<ref>" deliver event, "a:<task>" answer task (skipped if not pending), "b:<ref>" burst: 12 non-matching events and then <ref>, back to back from one goroutine, "m:<ref>" burst of 6 x <ref>
 	Hooks bool     `json:"hooks"`
 }
 
@@ -195,6 +195,33 @@ func c11Cases(tier string, seed uint64) []fw.Case {
 			c.Name = fmt.Sprintf("%s/%s/%s", shape, kind, strings.Join(h, ","))
 			cs = append(cs, fw.MkCase("enumerated", &c))
 		}
+		// bursts: events handed over back to back (each ConsumeEvent has returned before the next is
+		// issued, so every one of them is delivered while the listener is listening) without waiting
+		// for the instance to settle in between: more events than a node's inbox holds
+		var refsOf []string
+		for _, a := range alpha {
+			if strings.HasPrefix(a, "e:r") {
+				refsOf = append(refsOf, a[2:])
+			}
+		}
+		bi := 0
+		for _, h := range hs {
+			if len(h) > 2 {
+				continue
+			}
+			for _, ref := range refsOf {
+				for _, b := range []string{"b:", "m:"} {
+					bi++
+					if tier != "thorough" && len(h) == 2 && bi%3 != 0 {
+						continue
+					}
+					hh := append(append([]string(nil), h...), b+ref)
+					c := c11Case{Shape: shape, Kind: kinds[(bi+si)%3], Hist: hh, Hooks: bi%2 == 0}
+					c.Name = fmt.Sprintf("%s/%s/burst:%s", shape, c.Kind, strings.Join(hh, ","))
+					cs = append(cs, fw.MkCase("burst", &c))
+				}
+			}
+		}
 		// PRNG histories up to length 8 (event-heavy: delivery must never block)
 		n := 40
 		if tier == "thorough" {
@@ -290,6 +317,39 @@ func c11Run(c *c11Case, env *fw.Env, v *fw.V) {
 			for _, id := range fire {
 				m.Fire(id)
 			}
+		case "b", "m":
+			var evs []event.IEvent
+			if kind == "b" {
+				for k := 0; k < 12; k++ {
+					evs = append(evs, c11Event(c.Kind, "zz"))
+				}
+				evs = append(evs, c11Event(c.Kind, arg))
+			} else {
+				for k := 0; k < 6; k++ {
+					evs = append(evs, c11Event(c.Kind, arg))
+				}
+			}
+			in.Go("ConsumeEvent", func() error {
+				for _, ev := range evs {
+					if _, err := in.Proc.ConsumeEvent(ev); err != nil {
+						return err
+					}
+				}
+				return nil
+			})
+			delivered += len(evs)
+			v.Add("bursts", 1)
+			// reference: the listeners armed now and matching continue once (nothing re-arms a catch
+			// event before the driver acts again: every catch event is followed by a task)
+			var fire []string
+			for id, ref := range refs {
+				if ref == arg && m.Armed[id] > 0 {
+					fire = append(fire, id)
+				}
+			}
+			for _, id := range fire {
+				m.Fire(id)
+			}
 		case "x":
 			for _, ev := range c11Cross(c.Kind, arg) {
 				in.Go("ConsumeEvent", func() error { _, err := in.Proc.ConsumeEvent(ev); return err })
@@ -351,14 +411,14 @@ func init() {
 			c11Run(&cc, env, v)
 			ne := 0
 			for _, h := range cc.Hist {
-				if strings.HasPrefix(h, "e:") || strings.HasPrefix(h, "x:") {
+				if strings.HasPrefix(h, "e:") || strings.HasPrefix(h, "x:") || strings.HasPrefix(h, "b:") || strings.HasPrefix(h, "m:") {
 					ne++
 				}
 			}
 			v.Nontrivial = ne > 0
 			return v
 		},
-		Rule:        "processes with catch events in sequence, in parallel branches, two listeners for one event, two tokens waiting at one catch event (together, or one after the other was released), behind a pending task, on a branch never taken; signal / message / message-with-operation definitions; all histories of length <= 4 (quick: length-4 strided) and PRNG histories of length 5..8 over {matching event per listener, non-matching event, task answers}, events delivered before, while and after the listeners are armed; after every step the pending requests must equal the reference (armed matching listeners continue exactly once, nothing else reacts) and no ConsumeEvent caller may still be blocked; non-trivial = history delivers at least one event; distinct = descriptor hash",
+		Rule:        "processes with catch events in sequence, in parallel branches, two listeners for one event, two tokens waiting at one catch event (together, or one after the other was released), behind a pending task, on a branch never taken; signal / message / message-with-operation definitions; all histories of length <= 4 (quick: length-4 strided) and PRNG histories of length 5..8 over {matching event per listener, non-matching event, task answers}, events delivered before, while and after the listeners are armed; burst histories (every history of length <= 2 followed by 12 non-matching events and the awaited one, or 6 copies of the awaited one, handed over back to back from one goroutine without letting the instance settle: more than a node's inbox holds); after every step the pending requests must equal the reference (armed matching listeners continue exactly once, nothing else reacts) and no ConsumeEvent caller may still be blocked; non-trivial = history delivers at least one event; distinct = descriptor hash",
 		Assumptions: []string{"a token waiting at a catch event is one listener: two tokens at one catch event both continue on one matching event"},
 	})
 }
